@@ -23,7 +23,7 @@ PROPERTY = "C24"
 LEVEL = "fault_enumeration"
 BUDGET = {"quick": 96, "thorough": 1500}
 CHUNK = 1
-RUN_TIMEOUT_S = 600
+RUN_TIMEOUT_S = 1500
 MAX_DISCARD_FRACTION = 0.6
 SOLVERS = ["Rattle", "Moreau", "BackwardEuler", "DualStormerVerlet", "ScipyIVP"]
 RULE = (
